@@ -20,3 +20,30 @@ fn from_utf8_compat(data: &[u8]) -> Result<&str> {
     simdutf8::compat::from_utf8(data)
         .map_err(|e| Error::syntax(ErrorCode::InvalidUTF8, data, e.valid_up_to()))
 }
+
+/// Maps an offset in `String::from_utf8_lossy(data)` back to the offset in `data`: every maximal
+/// invalid sequence of `data` became one U+FFFD (three bytes) in the repaired text.
+#[cold]
+pub(crate) fn lossy_offset_to_origin(data: &[u8], mut lossy: usize) -> usize {
+    const REPLACEMENT_LEN: usize = 3;
+    let mut origin = 0;
+    loop {
+        match std::str::from_utf8(&data[origin..]) {
+            Ok(valid) => return origin + lossy.min(valid.len()),
+            Err(err) => {
+                let valid = err.valid_up_to();
+                if lossy <= valid {
+                    return origin + lossy;
+                }
+                lossy -= valid;
+                origin += valid;
+                let invalid = err.error_len().unwrap_or(data.len() - origin);
+                if lossy <= REPLACEMENT_LEN {
+                    return origin + invalid;
+                }
+                lossy -= REPLACEMENT_LEN;
+                origin += invalid;
+            }
+        }
+    }
+}
